@@ -47,6 +47,40 @@ CHECKS = {
              "through track_partitions only.",
         technique="TLA+ step model of the tracker + TLC invariants + behaviour replay and trace validation",
         ref="§4 C19", engine="tlc"),
+    "C01": dict(
+        text="Stats.tla transcribes the published defining integrals over an exact lattice (frequencies in 0.05 Hz units, whole "
+             "degrees, integer energies, the dataset's own bin widths, tail rule at 0.333 Hz) producing exact rationals or expression "
+             "trees over exact leaves; MC_Stats enumerates every spectrum over an alphabet on a family of grids (log-like, irregular, "
+             "uniform, single frequency, either side of the tail threshold; 1-D, 1/2/3/4/6 directions, full and partial circle, offset "
+             "starts), checks the algebraic consequences (1-D = direction-integrated 2-D, Hs/Hrms relation, tail iff above threshold) "
+             "as invariants, and every state becomes one implementation test through the DataArray and Dataset accessors (float64 and "
+             "float32, batched along leading dimensions, inside lat/lon blocks, and as 1-D spectra). The dispersion clause is evaluated "
+             "by the harness against the relation itself.",
+        note="Trusted: TLC, the 60-line expression evaluator (arithmetic + sqrt/atan2/sin/cos/exp). Exact only on the lattice; arbitrary "
+             "float spectra are reached through scaling/dtype variants only. Known finding: dm on non-uniform frequency grids.",
+        technique="TLA+ exact-lattice transcription of the defining integrals + TLC enumeration + replay of every state",
+        ref="§4 C01", engine="tlc"),
+    "C02": dict(
+        text="Stats.tla defines the interior strict local maxima, the set of largest peaks (ties nondeterministic), discrete and "
+             "parabola-vertex peak period (TLC checks on every lattice spectrum that the vertex lies strictly between the neighbours and "
+             "that monotone/flat/zero spectra have no peak), peak-row direction and spread, argmax-set peak direction, the exactly "
+             "decided alpha tail window and gamma at the peak; MC_Stats enumerates all spectra over an alphabet on 3..7-frequency grids "
+             "and each state is replayed through tp/fp/dp/dpm/dpspr/alpha/gamma at every position of batched datasets.",
+        note="Trusted: TLC, expression evaluator. Peak statistics are float32 in the library (compared at 3e-6); alpha only where the "
+             "window decisions have a 2e-3 margin; any of exactly tied peaks/directions is accepted.",
+        technique="TLA+ exact-lattice peak definitions + TLC enumeration + replay of every state",
+        ref="§4 C02", engine="tlc"),
+    "C10": dict(
+        text="StatsSym.tla states how the defining integrals transform under Scale(k), Relabel(a) and ScaleByHs as action properties "
+             "checked exactly by TLC on every lattice spectrum; MC_Stats checks the physical bounds as polynomial inequalities between "
+             "moments. Binding is metamorphic: both members of each pair (S, kS), (S, S relabelled) are run through the real accessor and "
+             "the relation the spec states is checked between the two outputs (k in 1e-6..1e6, angles incl. non-integer and beyond 360), "
+             "bounds are checked on the outputs, and scale_by_hs is replayed on datasets with exact range decisions (including spectra "
+             "without a peak, which meet no tp/dpm range).",
+        note="Trusted: TLC, float comparison at 1e-9 (2e-6 for float32 peak statistics). gw is excluded from the scaling relation (not "
+             "homogeneous by its own formula); relations on spreads/widths are not demanded where the exact value is < 1e-3.",
+        technique="TLA+ action properties on the exact lattice + metamorphic replay",
+        ref="§4 C10", engine="tlc"),
 }
 
 NOT_YET = "check not yet built in this round (see DESIGN.md §4 for the planned TLA+ model); not claimed"
